@@ -144,6 +144,16 @@ package generator
 //     requires *c == zero(T);  the same clauses over docObj(rawdoc(bs)); a non-null non-object document is rejected
 //   emitted func (*A).UnmarshalJSON(bs []byte) error                       [array schemas]       option family=json-unmarshal-array
 //     requires *c == zero(A);  ensures a non-null non-array document is rejected
+//   emitted func (A).marshalJSONInnerBody: also  ensures err == nil ==> the items written are Encode(c[0]), ..., Encode(c[n-1]) in order   [C07]
+//     loop #0 invariant jalen == old + processed && for q < processed: jaidx[old+q] == enc(c[q])
+//   emitted func (O).MarshalJSON() ([]byte, error)                          [oneOf schemas]       option family=json-marshal-oneof
+//     ensures err == nil ==> some variant is set; the result is the document MarshalJSON of the first set variant yields
+//   emitted func (*O).UnmarshalJSON(bs []byte) error                        [oneOf schemas]       option family=json-unmarshal-oneof
+//     requires *c == zero(O)
+//     with discriminator k and table (explicit mapping values, member schema names) -> variant:
+//       ensures docStrMember(doc, k) == value(V) && V accepts doc ==> err == nil && only c.V is set, to V's decoded value
+//       ensures docStrMember(doc, k) == value(V) && V rejects doc ==> err != nil;  no table entry ==> err != nil
+//     without discriminator: ensures the first accepting variant (in schema order) is the one set; err != nil iff none accepts
 //   lemma roundtrip(T): from the two contracts and the wire assumptions, decode(encode(v)) is v, member by member [C06]
 
 //@ emitted func (*).marshalJSONInnerBody*(out io.Writer) error
